@@ -1,1 +1,434 @@
-fn main() { println!("vh-http skeleton"); }
+//! C35 harness: drives the five bundled web-framework integrations of async-graphql *in process*
+//! with real HTTP request objects and records, per cell of the TLC-generated matrix
+//! (spec/conc/HttpMethod.tla), the HTTP status, whether each response carries `errors`, and how often
+//! the mutation / query resolvers ran.  It only drives and records; TLC (HttpMethodTrace.tla) judges.
+//!
+//! usage: c35 <cells.ndjson> <obs.ndjson>
+//!
+//! cell: {"id":n,"integ":"axum|actix-web|poem|warp|rocket","entry":"service|single|batch",
+//!        "method":"GET|POST","frame":"single|batch","items":[{"doc":[{"type":..,"name":..}],"op":".."}]}
+//!
+//! The tokio current-thread runtime (and actix's System) only carries the frameworks' own plumbing:
+//! nothing about scheduling is checked here.
+
+use std::convert::Infallible;
+use std::io::{BufRead, BufReader, BufWriter, Write};
+use std::sync::atomic::{AtomicUsize, Ordering};
+
+use async_graphql::{EmptySubscription, Object, Schema};
+use serde_json::{Value, json};
+
+static BUMPS: AtomicUsize = AtomicUsize::new(0); // side effect of the mutation resolver
+static PINGS: AtomicUsize = AtomicUsize::new(0); // runs of the query resolver
+
+struct QueryRoot;
+#[Object]
+impl QueryRoot {
+    async fn ping(&self, by: i32) -> i32 {
+        PINGS.fetch_add(1, Ordering::SeqCst);
+        by
+    }
+}
+struct MutationRoot;
+#[Object]
+impl MutationRoot {
+    async fn bump(&self, by: i32) -> i32 {
+        BUMPS.fetch_add(by as usize, Ordering::SeqCst);
+        by
+    }
+}
+type S = Schema<QueryRoot, MutationRoot, EmptySubscription>;
+
+fn tool_error(msg: &str) -> ! {
+    eprintln!("c35: {msg}");
+    std::process::exit(2)
+}
+
+// ---------------------------------------------------------------------------------------------
+// rendering of a cell into an HTTP request
+// ---------------------------------------------------------------------------------------------
+
+fn render_doc(doc: &Value) -> String {
+    let mut parts = Vec::new();
+    for op in doc.as_array().unwrap_or_else(|| tool_error("doc is not an array")) {
+        let ty = op["type"].as_str().unwrap_or("");
+        let name = op["name"].as_str().unwrap_or("");
+        let field = match ty {
+            "query" => "ping",
+            "mutation" => "bump",
+            _ => tool_error("unknown operation type"),
+        };
+        // an anonymous operation renders as `mutation ($by: Int!) { .. }`
+        parts.push(format!("{ty} {name}($by: Int!) {{ {field}(by: $by) }}"));
+    }
+    parts.join(" ")
+}
+
+fn pct(s: &str) -> String {
+    let mut out = String::new();
+    for b in s.bytes() {
+        if b.is_ascii_alphanumeric() || matches!(b, b'-' | b'_' | b'.' | b'~') {
+            out.push(b as char);
+        } else {
+            out.push_str(&format!("%{b:02X}"));
+        }
+    }
+    out
+}
+
+const VARIABLES: &str = r#"{"by":1}"#;
+
+struct Wire {
+    method: String,
+    path: String,         // route of the entry
+    uri: String,          // path plus query string (GET)
+    body: Option<String>, // JSON (POST)
+}
+
+fn wire(cell: &Value) -> Wire {
+    let integ = cell["integ"].as_str().unwrap_or("");
+    let entry = cell["entry"].as_str().unwrap_or("");
+    let method = cell["method"].as_str().unwrap_or("").to_string();
+    let frame = cell["frame"].as_str().unwrap_or("");
+    let items = cell["items"].as_array().unwrap_or_else(|| tool_error("items missing"));
+    let path = match entry {
+        "service" => "/",
+        "single" => "/single",
+        "batch" => "/batch",
+        _ => tool_error("unknown entry"),
+    }
+    .to_string();
+    if entry == "service" && !matches!(integ, "axum" | "actix-web" | "poem") {
+        tool_error("no ready-made service in this integration");
+    }
+    if method == "GET" {
+        if items.len() != 1 || frame != "single" {
+            tool_error("a GET cell carries exactly one request");
+        }
+        let it = &items[0];
+        let mut q = format!("query={}", pct(&render_doc(&it["doc"])));
+        let op = it["op"].as_str().unwrap_or("");
+        if !op.is_empty() {
+            q.push_str(&format!("&operationName={}", pct(op)));
+        }
+        q.push_str(&format!("&variables={}", pct(VARIABLES)));
+        Wire { method, uri: format!("{path}?{q}"), path, body: None }
+    } else if method == "POST" {
+        let reqs: Vec<Value> = items
+            .iter()
+            .map(|it| {
+                let mut o = serde_json::Map::new();
+                o.insert("query".into(), json!(render_doc(&it["doc"])));
+                let op = it["op"].as_str().unwrap_or("");
+                if !op.is_empty() {
+                    o.insert("operationName".into(), json!(op));
+                }
+                o.insert("variables".into(), serde_json::from_str(VARIABLES).unwrap());
+                Value::Object(o)
+            })
+            .collect();
+        let body = match frame {
+            "single" if reqs.len() == 1 => reqs[0].to_string(),
+            "batch" => Value::Array(reqs).to_string(),
+            _ => tool_error("bad frame"),
+        };
+        Wire { method, uri: path.clone(), path, body: Some(body) }
+    } else {
+        tool_error("unknown method")
+    }
+}
+
+// ---------------------------------------------------------------------------------------------
+// the five integrations
+// ---------------------------------------------------------------------------------------------
+
+mod ax {
+    use super::S;
+    use async_graphql_axum::{GraphQL, GraphQLBatchRequest, GraphQLRequest, GraphQLResponse};
+    use axum::{Router, body::Body, extract::State, routing::get};
+    use tower::ServiceExt;
+
+    async fn single(State(schema): State<S>, req: GraphQLRequest) -> GraphQLResponse {
+        schema.execute(req.into_inner()).await.into()
+    }
+    async fn batch(State(schema): State<S>, req: GraphQLBatchRequest) -> GraphQLResponse {
+        schema.execute_batch(req.into_inner()).await.into()
+    }
+    pub fn app(schema: S) -> Router {
+        Router::new()
+            .route_service("/", GraphQL::new(schema.clone()))
+            .route("/single", get(single).post(single))
+            .route("/batch", get(batch).post(batch))
+            .with_state(schema)
+    }
+    pub async fn call(app: &Router, w: &super::Wire) -> (u16, Vec<u8>) {
+        let mut b = http::Request::builder().method(w.method.as_str()).uri(w.uri.as_str());
+        let body = match &w.body {
+            Some(s) => {
+                b = b.header("content-type", "application/json");
+                Body::from(s.clone())
+            }
+            None => Body::empty(),
+        };
+        let req = b.body(body).unwrap_or_else(|e| super::tool_error(&format!("axum request: {e}")));
+        let resp = match app.clone().oneshot(req).await {
+            Ok(r) => r,
+            Err(e) => match e {},
+        };
+        let status = resp.status().as_u16();
+        let bytes = axum::body::to_bytes(resp.into_body(), usize::MAX)
+            .await
+            .unwrap_or_else(|e| super::tool_error(&format!("axum body: {e}")));
+        (status, bytes.to_vec())
+    }
+}
+
+mod ac {
+    use super::S;
+    use actix_web::{App, test, web};
+    use async_graphql_actix_web::{GraphQL, GraphQLBatchRequest, GraphQLRequest, GraphQLResponse};
+
+    async fn single(schema: web::Data<S>, req: GraphQLRequest) -> GraphQLResponse {
+        schema.execute(req.into_inner()).await.into()
+    }
+    async fn batch(schema: web::Data<S>, req: GraphQLBatchRequest) -> GraphQLResponse {
+        schema.execute_batch(req.into_inner()).await.into()
+    }
+    /// runs all actix cells inside one actix System (tokio current-thread runtime + LocalSet)
+    pub fn run(schema: S, wires: Vec<(usize, super::Wire)>, mut sink: impl FnMut(usize, &super::Wire, u16, Vec<u8>, (usize, usize))) {
+        actix_web::rt::System::new().block_on(async move {
+            let app = test::init_service(
+                App::new()
+                    .app_data(web::Data::new(schema.clone()))
+                    .service(web::resource("/").to(GraphQL::new(schema.clone())))
+                    .service(web::resource("/single").to(single))
+                    .service(web::resource("/batch").to(batch)),
+            )
+            .await;
+            for (k, w) in wires {
+                let req = match w.method.as_str() {
+                    "GET" => test::TestRequest::get().uri(&w.uri),
+                    _ => test::TestRequest::post()
+                        .uri(&w.uri)
+                        .insert_header(("content-type", "application/json"))
+                        .set_payload(w.body.clone().unwrap_or_default()),
+                }
+                .to_request();
+                let before = super::counters();
+                let (status, body) = match test::try_call_service(&app, req).await {
+                    Ok(resp) => {
+                        let status = resp.status().as_u16();
+                        (status, test::read_body(resp).await.to_vec())
+                    }
+                    Err(e) => {
+                        let resp = e.error_response();
+                        (resp.status().as_u16(), Vec::new())
+                    }
+                };
+                sink(k, &w, status, body, before);
+            }
+        });
+    }
+}
+
+mod po {
+    use super::S;
+    use async_graphql_poem::{GraphQL, GraphQLBatchRequest, GraphQLBatchResponse, GraphQLRequest, GraphQLResponse};
+    use poem::{Endpoint, EndpointExt, Request, Route, get, handler, web::Data};
+
+    #[handler]
+    async fn single(schema: Data<&S>, req: GraphQLRequest) -> GraphQLResponse {
+        GraphQLResponse(schema.execute(req.0).await)
+    }
+    #[handler]
+    async fn batch(schema: Data<&S>, req: GraphQLBatchRequest) -> GraphQLBatchResponse {
+        GraphQLBatchResponse(schema.execute_batch(req.0).await)
+    }
+    pub fn app(schema: S) -> impl Endpoint<Output = poem::Response> {
+        Route::new()
+            .at("/", get(GraphQL::new(schema.clone())).post(GraphQL::new(schema.clone())))
+            .at("/single", get(single).post(single))
+            .at("/batch", get(batch).post(batch))
+            .data(schema)
+            .map_to_response()
+    }
+    pub async fn call(app: &impl Endpoint<Output = poem::Response>, w: &super::Wire) -> (u16, Vec<u8>) {
+        let uri: poem::http::Uri = w.uri.parse().unwrap_or_else(|_| super::tool_error("poem uri"));
+        let method: poem::http::Method = w.method.parse().unwrap_or_else(|_| super::tool_error("poem method"));
+        let b = Request::builder().method(method).uri(uri);
+        let req = match &w.body {
+            Some(s) => b.content_type("application/json").body(s.clone()),
+            None => b.finish(),
+        };
+        let resp = app.get_response(req).await;
+        let status = resp.status().as_u16();
+        let body = resp.into_body().into_vec().await.unwrap_or_default();
+        (status, body)
+    }
+}
+
+mod wa {
+    use super::{Infallible, S};
+    use async_graphql::{BatchRequest, Request};
+    use async_graphql_warp::{GraphQLBatchResponse, GraphQLResponse, graphql, graphql_batch};
+    use warp::Filter;
+
+    pub async fn call(schema: &S, w: &super::Wire) -> (u16, Vec<u8>) {
+        let single = warp::path("single").and(graphql(schema.clone())).and_then(
+            |(schema, request): (S, Request)| async move {
+                Ok::<_, Infallible>(GraphQLResponse::from(schema.execute(request).await))
+            },
+        );
+        let batch = warp::path("batch").and(graphql_batch(schema.clone())).and_then(
+            |(schema, request): (S, BatchRequest)| async move {
+                Ok::<_, Infallible>(GraphQLBatchResponse::from(schema.execute_batch(request).await))
+            },
+        );
+        let routes = single.or(batch);
+        let mut req = warp::test::request().method(w.method.as_str()).path(w.uri.as_str());
+        if let Some(s) = &w.body {
+            req = req.header("content-type", "application/json").body(s.clone());
+        }
+        let resp = req.reply(&routes).await;
+        (resp.status().as_u16(), resp.body().to_vec())
+    }
+}
+
+mod rk {
+    use super::S;
+    use async_graphql_rocket::{GraphQLBatchRequest, GraphQLQuery, GraphQLRequest, GraphQLResponse};
+    use rocket::{State, http::ContentType, local::asynchronous::Client};
+
+    #[rocket::get("/single?<query..>")]
+    async fn get_query(schema: &State<S>, query: GraphQLQuery) -> GraphQLResponse {
+        query.execute(schema.inner()).await
+    }
+    #[rocket::post("/single", data = "<request>")]
+    async fn single(schema: &State<S>, request: GraphQLRequest) -> GraphQLResponse {
+        request.execute(schema.inner()).await
+    }
+    #[rocket::post("/batch", data = "<request>")]
+    async fn batch(schema: &State<S>, request: GraphQLBatchRequest) -> GraphQLResponse {
+        request.execute(schema.inner()).await
+    }
+    pub async fn client(schema: S) -> Client {
+        let figment = rocket::Config::figment().merge(("log_level", "off"));
+        let r = rocket::custom(figment).manage(schema).mount("/", rocket::routes![get_query, single, batch]);
+        Client::untracked(r).await.unwrap_or_else(|e| super::tool_error(&format!("rocket client: {e}")))
+    }
+    pub async fn call(client: &Client, w: &super::Wire) -> (u16, Vec<u8>) {
+        let resp = match &w.body {
+            None => client.get(w.uri.clone()).dispatch().await,
+            Some(s) => client.post(w.uri.clone()).header(ContentType::JSON).body(s.clone()).dispatch().await,
+        };
+        let status = resp.status().code;
+        let body = resp.into_bytes().await.unwrap_or_default();
+        (status, body)
+    }
+}
+
+// ---------------------------------------------------------------------------------------------
+
+fn counters() -> (usize, usize) {
+    (BUMPS.load(Ordering::SeqCst), PINGS.load(Ordering::SeqCst))
+}
+
+fn has_errors(v: &Value) -> bool {
+    v.get("errors").and_then(|e| e.as_array()).map(|a| !a.is_empty()).unwrap_or(false)
+}
+
+fn observe(cell: &Value, w: &Wire, status: u16, body: Vec<u8>, before: (usize, usize)) -> Value {
+    let after = counters();
+    let text = String::from_utf8_lossy(&body).to_string();
+    let parsed: Option<Value> = serde_json::from_slice(&body).ok();
+    // one flag per response of the body; no JSON body (a plain rejection) -> no flags
+    let errs: Vec<bool> = match &parsed {
+        Some(Value::Array(a)) => a.iter().map(has_errors).collect(),
+        Some(v @ Value::Object(_)) => vec![has_errors(v)],
+        _ => vec![],
+    };
+    let mut o = cell.as_object().cloned().unwrap_or_default();
+    o.insert("path".into(), json!(w.path));
+    o.insert("url".into(), json!(w.uri));
+    o.insert("payload".into(), json!(w.body.clone().unwrap_or_default()));
+    o.insert("status".into(), json!(status));
+    o.insert("errs".into(), json!(errs));
+    o.insert("effects".into(), json!(after.0 - before.0));
+    o.insert("reads".into(), json!(after.1 - before.1));
+    o.insert("body".into(), json!(text.chars().take(240).collect::<String>()));
+    Value::Object(o)
+}
+
+fn main() {
+    let args: Vec<String> = std::env::args().collect();
+    if args.len() != 3 {
+        tool_error("usage: c35 <cells.ndjson> <obs.ndjson>");
+    }
+    let f = std::fs::File::open(&args[1]).unwrap_or_else(|e| tool_error(&format!("open {}: {e}", args[1])));
+    let mut cells: Vec<Value> = Vec::new();
+    for ln in BufReader::new(f).lines() {
+        let ln = ln.unwrap_or_else(|e| tool_error(&format!("read: {e}")));
+        if ln.trim().is_empty() {
+            continue;
+        }
+        cells.push(serde_json::from_str(&ln).unwrap_or_else(|e| tool_error(&format!("bad cell json: {e}"))));
+    }
+    let schema: S = Schema::build(QueryRoot, MutationRoot, EmptySubscription).finish();
+    let mut out: Vec<Option<Value>> = vec![None; cells.len()];
+
+    // axum, poem, warp, rocket: one small current-thread tokio runtime (driving only)
+    let rt = tokio::runtime::Builder::new_current_thread()
+        .enable_all()
+        .build()
+        .unwrap_or_else(|e| tool_error(&format!("tokio runtime: {e}")));
+    rt.block_on(async {
+        let ax_app = ax::app(schema.clone());
+        let po_app = po::app(schema.clone());
+        let mut rk_client = None;
+        for (k, cell) in cells.iter().enumerate() {
+            let integ = cell["integ"].as_str().unwrap_or("");
+            if integ == "actix-web" {
+                continue;
+            }
+            let w = wire(cell);
+            let before = counters();
+            let (status, body) = match integ {
+                "axum" => ax::call(&ax_app, &w).await,
+                "poem" => po::call(&po_app, &w).await,
+                "warp" => wa::call(&schema, &w).await,
+                "rocket" => {
+                    if rk_client.is_none() {
+                        rk_client = Some(rk::client(schema.clone()).await);
+                    }
+                    rk::call(rk_client.as_ref().unwrap(), &w).await
+                }
+                _ => tool_error("unknown integration"),
+            };
+            out[k] = Some(observe(cell, &w, status, body, before));
+        }
+    });
+    drop(rt);
+
+    // actix-web: its own System
+    let wires: Vec<(usize, Wire)> = cells
+        .iter()
+        .enumerate()
+        .filter(|(_, c)| c["integ"].as_str() == Some("actix-web"))
+        .map(|(k, c)| (k, wire(c)))
+        .collect();
+    if !wires.is_empty() {
+        let cells_ref = &cells;
+        let out_ref = &mut out;
+        ac::run(schema.clone(), wires, |k, w, status, body, before| {
+            out_ref[k] = Some(observe(&cells_ref[k], w, status, body, before));
+        });
+    }
+
+    let f = std::fs::File::create(&args[2]).unwrap_or_else(|e| tool_error(&format!("create {}: {e}", args[2])));
+    let mut wr = BufWriter::new(f);
+    for o in out {
+        let o = o.unwrap_or_else(|| tool_error("cell without observation"));
+        writeln!(wr, "{}", o).unwrap_or_else(|e| tool_error(&format!("write: {e}")));
+    }
+    wr.flush().unwrap_or_else(|e| tool_error(&format!("flush: {e}")));
+}
